@@ -14,6 +14,10 @@ for n in sorted(os.listdir(D), key=lambda x: ((int(x.split("-")[1]) + 1) // 2, x
     res = m.get("checks_run_against_it", {})
     own = res.get(pid, {})
     kind = "failing input" if own.get("found_failing_input") else "obligation/correspondence only" if own.get("exit") == 1 else "MISSED"
+    if kind == "MISSED":
+        by = [c for c, x in res.items() if c != pid and x.get("found_failing_input")]
+        if by:
+            kind = "silent; failing input by " + "/".join(by)
     what = (own.get("what") or "").replace("|", "/")[:118]
     others = ", ".join("%s:%s" % (c, "input" if x.get("found_failing_input") else "soft" if x.get("exit") == 1 else "miss")
                        for c, x in res.items() if c != pid)
@@ -23,7 +27,7 @@ for n in sorted(os.listdir(D), key=lambda x: ((int(x.split("-")[1]) + 1) // 2, x
 out = []
 for rnd in sorted(rows):
     tot = len(rows[rnd])
-    hard = sum("| failing input |" in r for r in rows[rnd])
+    hard = sum("| failing input |" in r or "| silent; failing input by" in r for r in rows[rnd])
     soft = sum("| obligation/correspondence only |" in r for r in rows[rnd])
     out.append("**Round %d** — %d changes; with the checks as committed: %d reported with a failing input, %d as a broken "
                "obligation/correspondence only, %d missed.\n" % (rnd, tot, hard, soft, tot - hard - soft))
